@@ -10,7 +10,7 @@
 use super::FixtureDatabase;
 use once_cell::sync::Lazy;
 use rustpython_parser::ast::{Expr, Stmt};
-use std::collections::HashSet;
+use std::collections::{HashMap, HashSet};
 use std::path::{Path, PathBuf};
 use std::sync::Arc;
 use tracing::{debug, info};
@@ -118,6 +118,10 @@ pub struct FixtureImport {
     /// Line number of the import statement
     pub line: usize,
 }
+
+/// Results of one import walk that were cut short by an import cycle: module -> (fixture names
+/// found, modules of the walk's stack at which the walk below it was cut).
+type WalkMemo = HashMap<PathBuf, (HashSet<String>, HashSet<PathBuf>)>;
 
 impl FixtureDatabase {
     /// Extract fixture imports from a module's statements.
@@ -435,17 +439,25 @@ impl FixtureDatabase {
         file_path: &Path,
         visited: &mut HashSet<PathBuf>,
     ) -> HashSet<String> {
-        self.get_imported_fixtures_in_walk(file_path, visited).0
+        let mut memo = HashMap::new();
+        self.get_imported_fixtures_in_walk(file_path, visited, &mut memo)
+            .0
     }
 
     /// One step of the import walk. `in_progress` holds the modules currently being computed
     /// further up in this walk. Besides the fixture names, returns the modules of `in_progress`
     /// at which the walk below this file was cut short (import cycles): a result that depends
     /// on such a cut is only valid inside this walk and must not be cached.
+    ///
+    /// `memo` keeps such cut results for the duration of the walk: a module reached again by
+    /// another route while the modules its result was cut at are still in progress gets the same
+    /// result, so it is not computed once per route (the number of routes through a lattice of
+    /// imports doubles with every layer).
     fn get_imported_fixtures_in_walk(
         &self,
         file_path: &Path,
         in_progress: &mut HashSet<PathBuf>,
+        memo: &mut WalkMemo,
     ) -> (HashSet<String>, HashSet<PathBuf>) {
         let canonical_path = self.get_canonical_path(file_path.to_path_buf());
 
@@ -473,18 +485,31 @@ impl FixtureDatabase {
             debug!("Circular import detected for {:?}, skipping", file_path);
             return (HashSet::new(), HashSet::from([canonical_path]));
         }
+
+        // Computed earlier in this walk, cut at modules that are still in progress
+        if let Some((fixtures, cut_at)) = memo.get(&canonical_path) {
+            if cut_at.iter().all(|module| in_progress.contains(module)) {
+                return (fixtures.clone(), cut_at.clone());
+            }
+        }
         in_progress.insert(canonical_path.clone());
 
         // Compute imported fixtures
         let (imported_fixtures, mut cut_at) =
-            self.compute_imported_fixtures(&canonical_path, &content, in_progress);
+            self.compute_imported_fixtures(&canonical_path, &content, in_progress, memo);
 
         // A module reached again through another route (diamond) is computed again or served
         // from the cache; only a cycle back to a module still in progress cuts the walk.
         in_progress.remove(&canonical_path);
         cut_at.remove(&canonical_path);
 
-        // Store in cache (complete results only)
+        // Store in cache (complete results only; a cut one is remembered for this walk)
+        if !cut_at.is_empty() {
+            memo.insert(
+                canonical_path.clone(),
+                (imported_fixtures.clone(), cut_at.clone()),
+            );
+        }
         if cut_at.is_empty() {
             self.imported_fixtures_cache.insert(
                 canonical_path.clone(),
@@ -512,6 +537,7 @@ impl FixtureDatabase {
         canonical_path: &Path,
         content: &str,
         visited: &mut HashSet<PathBuf>,
+        memo: &mut WalkMemo,
     ) -> (HashSet<String>, HashSet<PathBuf>) {
         let mut imported_fixtures = HashSet::new();
         let mut cut_at = HashSet::new();
@@ -555,7 +581,7 @@ impl FixtureDatabase {
 
                     // Also recursively get fixtures imported into that file
                     let (transitive, cut) =
-                        self.get_imported_fixtures_in_walk(&resolved_canonical, visited);
+                        self.get_imported_fixtures_in_walk(&resolved_canonical, visited, memo);
                     imported_fixtures.extend(transitive);
                     cut_at.extend(cut);
                 } else {
@@ -594,7 +620,7 @@ impl FixtureDatabase {
                 }
 
                 let (transitive, cut) =
-                    self.get_imported_fixtures_in_walk(&resolved_canonical, visited);
+                    self.get_imported_fixtures_in_walk(&resolved_canonical, visited, memo);
                 imported_fixtures.extend(transitive);
                 cut_at.extend(cut);
             }
